@@ -56,6 +56,7 @@ class ShapeFunctions(Family):
 
 class Geometry_(Family):
     name = "window-geometry"
+    split_depth = 12
     doc = "window strategies reproduce the documented series (independent oracle) for the windows they use"
     query_timeout_ms = 30000
 
